@@ -242,7 +242,11 @@ func vsdWhere(dump string) vsdAt {
 				at.Bch = "sel"
 			}
 		case vsdHas(b, "(*SubscriptionManager).subscriptionHandler"):
-			at.Subh = "sel"
+			if vsdHas(b, "NotificationsSinceHeight") {
+				at.Subh = "nsh"
+			} else {
+				at.Subh = "sel"
+			}
 		case vsdHas(b, "(*blockManager).blockHandler"):
 			switch {
 			case vsdHas(b, "onBlockDisconnected"):
@@ -712,7 +716,21 @@ func vsdRunOne(p vsdPathIn, scratch string) (out vsdPathOut, rerr error) {
 	settle := stop == nil || stop.M >= 1
 
 	// ----- activities before Stop
-	for _, a := range pre {
+	released := false
+	for i, a := range pre {
+		if syncM == 1 && pool == vsdPResp && !released && i > 0 && pre[i-1].K == vsdKSync && r.rng.Intn(2) == 0 {
+			// the cfHandler's parked cfheaders answers arrive NOW: the next
+			// activity begins while the cfHandler writes the filter headers
+			// and announces the blocks (the filter header tip is published
+			// right before the notifications are sent)
+			released = true
+			r.info["release"] = "before the next activity"
+			nd.Release()
+			vsdWaitFor(3*time.Second, func() bool {
+				_, h, err := svc.RegFilterHeaders.ChainTip()
+				return err == nil && h >= 1000
+			})
+		}
 		if err := r.begin(a); err != nil {
 			return out, err
 		}
@@ -804,7 +822,7 @@ func vsdRunOne(p vsdPathIn, scratch string) (out vsdPathOut, rerr error) {
 		r.log(vsdAct{Op: "StopRet"}, nil, "")
 		close(r.stopCh)
 	}()
-	if pool == vsdPResp {
+	if pool == vsdPResp && !released {
 		// the parked answers arrive around the moment of Stop
 		// (Stop reaches the subscription manager and the block manager
 		// about 50 ms after the call: UtxoScanner.Stop's 50 ms signal loop)
